@@ -60,8 +60,26 @@ func c14Word(c c14Case, vars map[string]string) (ast.Word, string, error) {
 				w = append(w, &ast.Quote{Tok: `"`, Value: ast.Word{&ast.ArithExp{Expr: ast.Word{&ast.Lit{Value: s.Expr}}}}})
 			case s.Expr != "":
 				w = append(w, &ast.ArithExp{Expr: ast.Word{&ast.Lit{Value: s.Expr}}})
+			case !s.Quoted && s.Style == "@":
+				w = append(w, &ast.ParamExp{Name: &ast.Lit{Value: "@"}})
+			case !s.Quoted && s.Style == `"@`:
+				w = append(w, &ast.Quote{Tok: `"`, Value: ast.Word{&ast.ParamExp{Name: &ast.Lit{Value: "@"}}}})
 			case !s.Quoted:
 				w = append(w, &ast.Lit{Value: s.Text})
+			case s.Style == `\` && s.Text != "":
+				for t := s.Text; t != ""; {
+					_, n := utf8.DecodeRuneInString(t)
+					w = append(w, &ast.Quote{Tok: `\`, Value: ast.Word{&ast.Lit{Value: t[:n]}}})
+					t = t[n:]
+				}
+			case s.Style == "'":
+				if s.Text == "" {
+					w = append(w, &ast.Quote{Tok: `'`, Value: ast.Word{}})
+				} else {
+					w = append(w, &ast.Quote{Tok: `'`, Value: ast.Word{&ast.Lit{Value: s.Text}}})
+				}
+			case s.Style == `"` && s.Text != "":
+				w = append(w, &ast.Quote{Tok: `"`, Value: ast.Word{&ast.Lit{Value: s.Text}}})
 			case s.Text == "":
 				w = append(w, &ast.Quote{Tok: `"`, Value: ast.Word{}})
 			default:
@@ -81,6 +99,18 @@ func c14Word(c c14Case, vars map[string]string) (ast.Word, string, error) {
 			b.WriteString(`"$((` + s.Expr + `))"`)
 		case s.Expr != "":
 			b.WriteString(`$((` + s.Expr + `))`)
+		case !s.Quoted && s.Style == "@":
+			b.WriteString("$@")
+		case !s.Quoted && s.Style == `"@`:
+			b.WriteString(`"$@"`)
+		case s.Quoted && s.Style == "'" && !strings.Contains(s.Text, "'") && utf8.ValidString(s.Text):
+			b.WriteString("'" + s.Text + "'")
+		case s.Quoted && s.Style == `"` && !strings.ContainsAny(s.Text, "\"$`\\") && utf8.ValidString(s.Text):
+			b.WriteString(`"` + s.Text + `"`)
+		case s.Quoted && s.Style == `\` && s.Text != "" && !strings.Contains(s.Text, "\n") && utf8.ValidString(s.Text):
+			for _, r := range s.Text {
+				b.WriteString(`\` + string(r))
+			}
 		case !s.Quoted && plain && i%2 == 0:
 			b.WriteString(s.Text)
 		case !s.Quoted:
@@ -122,6 +152,7 @@ func checkC14(c c14Case) error {
 		return err
 	}
 	env.Opts |= interp.NoGlob
+	env.Args = []string{"sh"} // no positional parameters
 	if c.IFSSet {
 		env.Set("IFS", ifs)
 	} else {
@@ -160,9 +191,9 @@ func segString(segs []ref.Seg) string {
 			fmt.Fprintf(&b, "A(%s)", s.Expr)
 		}
 		if s.Quoted {
-			fmt.Fprintf(&b, "Q%q", s.Text)
+			fmt.Fprintf(&b, "Q%s%q", s.Style, s.Text)
 		} else {
-			fmt.Fprintf(&b, "U%q", s.Text)
+			fmt.Fprintf(&b, "U%s%q", s.Style, s.Text)
 		}
 	}
 	return b.String()
@@ -279,6 +310,71 @@ func TestC14(t *testing.T) {
 	st.Exhaustive = true
 	st.Note("exhaustive: all words of <= %d segments over {ordinary, IFS white space, IFS non-white-space, non-IFS white space, quoted ordinary, quoted IFS characters, empty quotes} x %d IFS settings (unset, default, ' ,', ',', ':', empty, multi-byte, two non-white-space, newline+comma, an invalid byte), word built as AST; a quarter of them also written as source text and parsed", maxn, len(c14Cfgs))
 
+	// (a″) the spelling of a segment is a dimension of its own: every quote
+	// style for the quoted kinds, and $@ / "$@" without positional parameters
+	// (which contribute nothing) among the others
+	{
+		syms2 := append(append([]sym{}, syms...),
+			sym{"e'", func(w, n string) (ref.Seg, bool) { return ref.Seg{Quoted: true, Style: "'"}, true }},
+			sym{"q\\", func(w, n string) (ref.Seg, bool) { return ref.Seg{Text: "y", Quoted: true, Style: `\`}, true }},
+			sym{"Q\"", func(w, n string) (ref.Seg, bool) { return ref.Seg{Text: n + w, Quoted: true, Style: `"`}, n+w != "" }},
+			sym{"Q\\", func(w, n string) (ref.Seg, bool) {
+				return ref.Seg{Text: n + w, Quoted: true, Style: `\`}, n+w != "" && !strings.Contains(n+w, "\n")
+			}},
+			sym{"@", func(w, n string) (ref.Seg, bool) { return ref.Seg{Style: "@"}, true }},
+			sym{"\"@", func(w, n string) (ref.Seg, bool) { return ref.Seg{Style: `"@`}, true }},
+		)
+		max2 := 4
+		if thorough() {
+			max2 = 5
+		}
+		idx2 := 0
+		var k2 int64
+		var rec2 func(prefix []int)
+		rec2 = func(prefix []int) {
+			idx2++
+			styled := false
+			for _, k := range prefix {
+				styled = styled || k >= len(syms)
+			}
+			if idx2%nsh == sh && styled {
+				for _, cfg := range c14Cfgs {
+					c := mkC14(cfg.val, cfg.set, "ast")
+					ok := true
+					for _, k := range prefix {
+						s, avail := syms2[k].mk(cfg.ws, cfg.nws)
+						ok = ok && avail
+						c.Segs = append(c.Segs, s)
+					}
+					if !ok {
+						continue
+					}
+					for _, via := range []string{"ast", "parse"} {
+						c.Via = via
+						if err := checkC14(c); err != nil {
+							fail(t, "C14", "split", c, "%v", err)
+						}
+						nt := int64(0)
+						if c14NonTrivial(c) {
+							nt = 1
+						}
+						st.EvalN(1, nt)
+						k2++
+					}
+				}
+			}
+			if len(prefix) == max2 {
+				return
+			}
+			for k := range syms2 {
+				rec2(append(append([]int{}, prefix...), k))
+			}
+		}
+		rec2(nil)
+		st.ClassN("exhaustive_with_spelling_variants", k2)
+		st.Note("exhaustive: all words of <= %d segments over the 7 kinds plus '' , backslash-quoted ordinary and IFS characters, double-quoted IFS characters, and $@ / \"$@\" with no positional parameters, that use at least one of the added spellings x %d IFS settings, as AST and as parsed source", max2, len(c14Cfgs))
+	}
+
 	// (a') results of arithmetic expansions are text of the word like any
 	// other: unquoted ones are cut at IFS characters (digits, the minus sign)
 	if sh == 0 {
@@ -348,8 +444,19 @@ func TestC14(t *testing.T) {
 		})
 		c := mkC14(cfg.val, cfg.set, rapid.SampledFrom([]string{"ast", "parse"}).Draw(rt, "via"))
 		k := rapid.IntRange(0, 9).Draw(rt, "nseg")
+		if rapid.IntRange(0, 49).Draw(rt, "long") == 0 {
+			// a field of many parts
+			k = rapid.IntRange(60, 140).Draw(rt, "nseg_long")
+			st.Class("word_with_60_to_140_segments")
+		}
 		for i := 0; i < k; i++ {
-			c.Segs = append(c.Segs, ref.Seg{Text: text.Draw(rt, "seg"), Quoted: rapid.Bool().Draw(rt, "quoted")})
+			sg := ref.Seg{Text: text.Draw(rt, "seg"), Quoted: rapid.Bool().Draw(rt, "quoted")}
+			if sg.Quoted {
+				sg.Style = rapid.SampledFrom([]string{"", "'", `"`, `\`, "$"}).Draw(rt, "style")
+			} else if sg.Text == "" {
+				sg.Style = rapid.SampledFrom([]string{"", "@", `"@`}).Draw(rt, "style")
+			}
+			c.Segs = append(c.Segs, sg)
 		}
 		if tilde && c.Via == "ast" {
 			// a tilde-prefix that names nobody stays as it is, unquoted
